@@ -150,6 +150,9 @@ func c13Case(ctx *Ctx, name string, args []cty.Value, zeroStep bool) c13Res {
 	}
 	orc := c13Oracle(name, args, zeroStep)
 	ctx.Add("std.call", r.wire(), name, c13EncArgs(args), "("+strings.Join(orc, " ")+")")
+	// the same call under modelEnv (Stdlib/d13Env.lean): unify, convert, hash and hash-byte order come
+	// from the Lean models of those packages instead of the oracle columns above
+	ctx.Add("std.callm", r.wire(), name, c13EncArgs(args))
 	ctx.Tag("fn:" + name + ":" + r.class)
 	return r
 }
